@@ -9,7 +9,8 @@ import (
 
 // VarLens are the variable-length boundary lengths of the properties.
 var VarLensQuick = []int{0, 255}
-var VarLensThorough = []int{0, 1, 254, 255, 256}
+var VarLensQuickString = []int{0, 2, 255}
+var VarLensThorough = []int{0, 1, 2, 254, 255, 256}
 
 // PickLen splits over the boundary lengths for a variable-length kind.
 func PickLen(k Kind, tag string) int { return PickLenR(k, tag, false) }
@@ -21,6 +22,12 @@ func PickLenR(k Kind, tag string, reduced bool) int {
 		return 0
 	}
 	ls := VarLensQuick
+	if k == KString || k == KAntreaS {
+		// strings also get a short non-empty length: content-dependent handling
+		// (character set, padding) is decidable there, while at 255 symbolic
+		// bytes it is not always
+		ls = VarLensQuickString
+	}
 	if sx.Tier() > 0 && !reduced {
 		ls = VarLensThorough
 	}
@@ -80,7 +87,12 @@ func TemplateSet(tplID uint16, kinds []Kind) entities.Set {
 
 // DataSet builds the library's data set with one record per value vector.
 func DataSet(tplID uint16, recs [][]Val) entities.Set {
-	s := entities.NewSet(false)
+	return FillDataSet(entities.NewSet(false), tplID, recs)
+}
+
+// FillDataSet prepares s (a new set, or one the caller has reset for reuse)
+// as a data set with the given records.
+func FillDataSet(s entities.Set, tplID uint16, recs [][]Val) entities.Set {
 	if err := s.PrepareSet(entities.Data, tplID); err != nil {
 		panic("common.DataSet: " + err.Error())
 	}
